@@ -123,6 +123,7 @@ structure Acct where
   bk : Nat
   heightHint : Nat
   latestTx : Option Tx
+  secret : Nat := 0        -- Account.Secret (what the signer's DeriveSharedKey returned when it was set)
 deriving DecidableEq, Repr, Inhabited
 
 /-- `Version.ScriptVersion()` -/
@@ -169,6 +170,7 @@ structure AState where
   nextReg : Nat := 0
   wallet : List Tx := []
   trace : List Effect := []
+  signerSecret : Nat := 0  -- Signer.DeriveSharedKey(auctioneer key, trader key locator) of this account
 deriving Repr
 
 def AState.init (key : Nat) : AState := { key := key }
@@ -432,7 +434,8 @@ def bump (s : AState) : AState × Res :=
 /-- `InitAccount` (parameters already validated by `validateAccountParams`) -/
 def initAccount (s : AState) (value expiry version height : Nat) (fundTx : Option (Nat × Nat)) : AState × Res :=
   let a : Acct := { state := .initiated, outpoint := ⟨0, 0⟩, value := value, expiry := expiry,
-                    version := version, bk := 0, heightHint := height, latestTx := none }
+                    version := version, bk := 0, heightHint := height, latestTx := none,
+                    secret := s.signerSecret }
   resume (write s a) a false false true fundTx
 
 /-! ## batches -/
@@ -595,8 +598,10 @@ def step (s : AState) : Op → AState × Res
     | none => (s, .ok)
     | some a => resume s a true false feeOk f
   | .recover a known =>
-    -- RecoverAccount: AddAccount, resumeAccount(onRecovery)
+    -- RecoverAccount: DeriveSharedKey (the reported record carries no secret), AddAccount,
+    -- resumeAccount(onRecovery)
     let s := { s with wallet := known }
+    let a := { a with secret := s.signerSecret }
     resume (write s a) a false true false none
 
 def run (s : AState) : List Op → AState
